@@ -140,17 +140,24 @@ def select_plans(plans, tier, rng):
 # ------------------------------------------------------------------------------------------------
 # one real execution
 # ------------------------------------------------------------------------------------------------
+HELPERS = ["h7", "h7", "h0", "k9", "h7", "h3", "k15"]   # exit(7) / exit(0) / SIGKILL / exit(3) / SIGTERM
+
+
+def helper_name(idx):
+    return HELPERS[idx % len(HELPERS)]
+
+
 def concretise(plan, rundir, variant, idx):
     cfg = plan["cfg"]
     start, env_alt = VARIANTS[variant][1], VARIANTS[variant][2]
-    binp = os.path.join(rundir, "h7" if cfg["prog"] == "ok" else "nobin")
+    binp = os.path.join(rundir, helper_name(idx) if cfg["prog"] == "ok" else "nobin")
     cwd = {"none": None, "ok": os.path.join(rundir, "dirA"), "missing": os.path.join(rundir, "dirX")}[cfg["cwd"]]
     io = list(cfg["io"])
     names = ["stdin", "stdout", "stderr"]
     dplan = {"bin": binp, "args": ARGS[:cfg["nargs"]], "env": ENVS[:cfg["nenv"]] if cfg["nenv"] else None,
              "cwd": cwd, "uid": os.getuid() if cfg["uid"] == "own" else None,
              "gid": os.getgid() if cfg["gid"] == "own" else None, "pgroup": 0 if cfg["pg"] == "own" else None,
-             "pre_exec": list(cfg["pre"]), "open": [], "wait": True}
+             "pre_exec": list(cfg["pre"]), "open": [], "wait": "try" if idx % 5 == 2 else True}
     for s in range(3):
         m = io[s]
         if m == "inherit":
@@ -191,7 +198,7 @@ def execute(job):
     if os.path.isdir(rundir):
         shutil.rmtree(rundir)
     os.makedirs(os.path.join(rundir, "dirA"))
-    helper = os.path.join(rundir, "h7")
+    helper = os.path.join(rundir, helper_name(job["idx"]))
     try:
         os.link(os.path.join(job["tools"], "spawn_helper"), helper)
     except OSError:
@@ -232,6 +239,9 @@ def execute(job):
         dump = json.loads(open(dpath).read())
     info = info_from_tracer(job["idx"], c, tr) if probe else info_from_driver(job["idx"], c, dv)
     events = assemble(job["idx"], c, tr, info, dump)
+    if any(e["ev"] == "anomaly" and e["what"] == "TimedOut" for e in events) and job.get("timeout_ms", 4000) < 20000:
+        # a hang of the code under test is deterministic; a slow machine is not: confirm with a long watchdog
+        return execute(dict(job, timeout_ms=20000))
     return {"idx": job["idx"], "events": events, "c": c, "dplan": dplan, "inj": inj, "tracer": tr, "driver": dv, "dump": dump}
 
 
@@ -246,7 +256,7 @@ def probe_args(dplan):
         v = dplan[k]
         if v is not None:
             a.append("%s=%s" % (n, v if isinstance(v, str) else "fd:%d" % v["fd"]))
-    return a + ["pre=%d" % x for x in dplan["pre_exec"]]
+    return a + ["pre=%d" % x for x in dplan["pre_exec"]] + (["wait=try"] if dplan["wait"] == "try" else [])
 
 
 NOFD = {"link": "", "acc": -1}
@@ -379,6 +389,13 @@ def observed_hist(run, plan):
 
 def conformance(run, plan, verdict):
     h = observed_hist(run, plan)
+    # Child::try_wait polls: wait4(WNOHANG) returning 0 any number of times before the final one
+    p1 = []
+    for x in h[1]:
+        if x == ["wait4", 0] and p1 and p1[-1] == ["wait4", 0]:
+            continue
+        p1.append(x)
+    h[1] = p1
     mp = [x for x in plan["hist"]["P"] if x[0] != "close"]
     mc = [x for x in plan["hist"]["C"] if x[0] != "close"]
     diffs = []
@@ -392,7 +409,8 @@ def conformance(run, plan, verdict):
         diffs.append({"what": "returns", "model": mr, "real": rr})
     if plan["execd"] != verdict["execd"]:
         diffs.append({"what": "execd", "model": plan["execd"], "real": verdict["execd"]})
-    if plan["waitres"]["res"] == "ok" and verdict["waitres"]["res"] == "ok" and plan["waitres"]["status"] != verdict["waitres"]["status"]:
+    if helper_name(run["idx"]) == "h7" and plan["waitres"]["res"] == "ok" and verdict["waitres"]["res"] == "ok" \
+            and plan["waitres"]["status"] != verdict["waitres"]["status"]:
         diffs.append({"what": "wait status", "model": plan["waitres"], "real": verdict["waitres"]})
     return diffs
 
